@@ -10,9 +10,23 @@ def honest (ws : List String) : Option String := do
   let (c, s, tr) := honestRun P (← parseCCfg ws) (← parseCTape ws) (← parseSCfg ws) (← parseSTape ws)
   pure s!"{showTranscript tr} || {showCState Prim.sha1 c} || {showSState Prim.sha1 s}"
 
+/-- `server k=v … ; msg ; msg ; …` → final server state and everything the server sent, for the
+server fed with the given incoming messages. -/
+def server (ws : List String) : Option String :=
+  match splitAt ";" ws with
+  | [] => none
+  | hd :: msgs =>
+    match oracles hd, parseSCfg hd, parseSTape hd, msgs.mapM parseMsg with
+    | some (isPrime, factor), some cfg, some tape, some ms =>
+      let P := symXP Prim.sha1 isPrime factor
+      let r := srun P cfg tape .waitReqPQ ms
+      some s!"{showSState Prim.sha1 r.1} || {showTranscript r.2}"
+    | _, _, _, _ => none
+
 def handle (line : String) : String :=
   match words line with
   | "honest" :: ws => (honest ws).getD "bad-op"
+  | "server" :: ws => (server ws).getD "bad-op"
   | ["powmod", b, e, m] =>
     match b.toNat?, e.toNat?, m.toNat? with
     | some b, some e, some m => toString (powMod b e m)
